@@ -22,8 +22,11 @@ import (
 	"encoding/json"
 	"fmt"
 	"hash/fnv"
+	"io"
 	"math"
+	"runtime"
 	"strings"
+	"sync"
 
 	"github.com/bytom/bytom/consensus"
 	"github.com/bytom/bytom/protocol/bc"
@@ -730,6 +733,15 @@ func (g *gen) mutate(raw []byte) ([]byte, string) {
 
 // ---------------------------------------------------------------- the run
 
+// yieldWriter hands the processor to another goroutine before it copies each chunk.
+type yieldWriter struct{ buf []byte }
+
+func (w *yieldWriter) Write(p []byte) (int, error) {
+	runtime.Gosched()
+	w.buf = append(w.buf, p...)
+	return len(p), nil
+}
+
 func witnessTx() *types.TxData {
 	in := types.NewSpendInput([][]byte{{1}}, bc.Hash{V0: 1}, bc.AssetID{V1: 2}, 5, 1, []byte{0x51}, nil)
 	in.TypedInput.(*types.SpendInput).SpendCommitmentSuffix = []byte{0xaa, 0xbb}
@@ -1026,6 +1038,62 @@ func runC04(c *Ctx) error {
 			}
 			st.Case("mut|"+hk(string(mut)), true)
 		}
+	}
+
+	// ---- interleaved stage: WriteTo streams into whatever io.Writer the caller hands in (a network
+	// connection, a file); while one value is being written another goroutine may serialise another
+	// value.  The bytes that reach each writer must be exactly the value's own encoding.  One P and a
+	// writer that yields before it copies each chunk make every interleaving point reachable.
+	{
+		old := runtime.GOMAXPROCS(1)
+		nI := c.N(60, 400)
+		type job struct {
+			name string
+			want []byte
+			run  func(w io.Writer) error
+		}
+		var jobs []job
+		for i := 0; i < nI; i++ {
+			tx := g.tx(true)
+			hd := g.header()
+			var b1, b2 bytes.Buffer
+			if _, err := tx.WriteTo(&b1); err == nil {
+				t := tx
+				jobs = append(jobs, job{"tx", append([]byte{}, b1.Bytes()...), func(w io.Writer) error { _, e := t.WriteTo(w); return e }})
+			}
+			if _, err := hd.WriteTo(&b2); err == nil {
+				h := hd
+				jobs = append(jobs, job{"header", append([]byte{}, b2.Bytes()...), func(w io.Writer) error { _, e := h.WriteTo(w); return e }})
+			}
+		}
+		got := make([][]byte, len(jobs))
+		var wg sync.WaitGroup
+		const lanes = 4
+		for l := 0; l < lanes; l++ {
+			wg.Add(1)
+			go func(l int) {
+				defer wg.Done()
+				for i := l; i < len(jobs); i += lanes {
+					w := &yieldWriter{}
+					func() {
+						defer func() { recover() }()
+						jobs[i].run(w)
+					}()
+					got[i] = w.buf
+				}
+			}(l)
+		}
+		wg.Wait()
+		runtime.GOMAXPROCS(old)
+		for i, j := range jobs {
+			if !bytes.Equal(got[i], j.want) {
+				st.Fail(fmt.Sprintf("class=interleaved-encoding-differs: a %s written while other values are being serialised reaches its writer as %d bytes that differ from its own encoding (%d bytes) at %s", j.name, len(got[i]), len(j.want), firstDiff(hex.EncodeToString(got[i]), hex.EncodeToString(j.want))),
+					map[string]interface{}{"kind": "interleaved", "value": j.name, "encoding": hex.EncodeToString(j.want)})
+				break
+			}
+		}
+		st.Count("interleaved-stage")
+		st.Distribution["interleaved-jobs"] = len(jobs)
 	}
 
 	d := st.Distribution
